@@ -265,8 +265,8 @@ Definition format_record (st : rp_state) (r : record) : res (rp_state * str) :=
   let d := rdata r in
   do w1 <- update_widths (rp_widths st) d;
   let order1 := rp_order st ++ new_columns (rp_order st) d in
-  match order1 with
-  | [] => Ok (mkRP w1 order1 (rp_term st), trim_end (rraw r))
+  match d with
+  | [] => Ok (mkRP w1 order1 (rp_term st), trim_end (rraw r))      (* a row without fields: its line, wherever it stands (fix KF-56) *)
   | _ =>
       do reset <- (if overflows_term (rp_term st) w1
                    then do w2 <- update_widths [] d; Ok (w2, new_columns [] d, overflows_term (rp_term st) w2)
